@@ -38,6 +38,9 @@ func scenario(p params, r *lib.RNG) *ts.Scenario {
 		// jrpc2.Client) whose event has the topic count and data size of the first one's:
 		// Transfer next to Approval, both with header plans (shared cached segments)
 		twin := map[string]string{"log": "appr", "appr": "log"}[p.shape]
+		if p.seed%3 == 0 {
+			twin = "tx" // another PLAN (blocks instead of headers + logs) on the same client
+		}
 		sc.IGs = append(sc.IGs, ts.IGSpec{Name: "ig2", Shape: twin, Table: "t2", AddrFlt: p.addrFlt, Hdr: true,
 			Sources: []ts.SrcRef{{Name: "main", Start: p.start, Stop: p.stop}}})
 		finish = func() {
@@ -201,6 +204,33 @@ func run(cfg lib.Cfg) error {
 			sc.Acts = append(sc.Acts, ts.Act{Do: "step", Tid: a}, ts.Act{Do: "step", Tid: b})
 		}
 		judge(sc, "corpus-same-shaped-events-one-client")
+	}
+	// corpus: two integrations with DIFFERENT plans on one source and one real client: headers +
+	// logs (log / created) next to blocks (tx) or blocks + traces (trace), same batches, stepping
+	// in both orders and alternating.  The client keeps header segments and block segments in
+	// separate caches: whoever asks second for a range must get what ITS plan needs (a
+	// blocks-plan task served header-only blocks writes nothing while its position advances).
+	for v, c := range []struct {
+		first, second string
+		order         int // 0: first task steps first, 1: second first, 2: alternating
+	}{
+		{"log", "tx", 0}, {"log", "tx", 1}, {"log", "tx", 2}, {"created", "tx", 0}, {"log", "trace", 0}, {"log", "trace", 2},
+	} {
+		sc := &ts.Scenario{Name: fmt.Sprintf("corpus-mixed-plans-one-client-%d-%s-%s", v, c.first, c.second), Seed: uint64(61 + v), Head: 9, Real: true,
+			Gen:  ts.GenOpts{MaxTxs: 2, MaxLogs: 3, Created: c.first == "created", Traces: c.second == "trace", AlwaysTrace: c.second == "trace", Decoys: true, EmptyProb: 0},
+			Srcs: []ts.SrcSpec{{Name: "main", ChainID: 1, Batch: 3, Conc: 1 + v%2, URL: "http://main.invalid"}},
+			IGs: []ts.IGSpec{
+				{Name: "ig1", Shape: c.first, Table: "t1", Hdr: true, Sources: []ts.SrcRef{{Name: "main", Start: 1}}},
+				{Name: "ig2", Shape: c.second, Table: "t2", Sources: []ts.SrcRef{{Name: "main", Start: 1}}},
+			}}
+		for k := 0; k < 5; k++ {
+			a, b := 1, 2
+			if c.order == 1 || (c.order == 2 && k%2 == 1) {
+				a, b = 2, 1
+			}
+			sc.Acts = append(sc.Acts, ts.Act{Do: "step", Tid: a}, ts.Act{Do: "step", Tid: b})
+		}
+		judge(sc, "corpus-mixed-plans-one-client")
 	}
 	// corpus: a log integration that declares a receipt field (tx_status): its plan is
 	// eth_getBlockReceipts, which hands dig EVERY log of every transaction - Approval logs
